@@ -220,6 +220,7 @@ func checkC15(r *Result) {
 	r.rule("ABI-TYPES", "the ordered ABI type list of a Go encoder equals that of the Solidity expression that recomputes or decodes it")
 	r.rule("ABI-ROLES", "operand k of the Go Pack call plays the role of argument k of the Solidity expression")
 	r.rule("ABI-CONST", "domain separators and literal constants are byte-equal on both sides")
+	r.rule("ABI-VALUES", "numeric operands collected in a loop are distinct values, not one reused big.Int")
 	r.rule("THRESHOLD", "power threshold = 2 * total power / 3, multiplication first")
 	r.rule("SIG-HASH", "the contract hashes the signed digest once with sha256 before ecrecover")
 
@@ -544,6 +545,70 @@ func checkC15(r *Result) {
 		body := joinToks(cv.Body)
 		r.check(strings.Contains(body, "if(_cumulativePower<_powerThreshold){revertInsufficientVotingPower();}"), "THRESHOLD", "BlobstreamO._checkValidatorSignatures # reverts when cumulative power < threshold", "evm/contracts/bridge/BlobstreamO.sol", "final comparison present")
 	}
+	// ---- ABI-VALUES: a *big.Int put into an element that is collected in a loop must be a value of that
+	// iteration; big.Int methods return their receiver, so a scratch value reused across iterations makes
+	// every collected element point at the last one
+	{
+		nSites := 0
+		for _, fn := range P.RepoFuncs {
+			if fn.Pkg == nil || !strings.HasSuffix(fn.Pkg.Pkg.Path(), "/x/bridge/keeper") {
+				continue
+			}
+			for _, b := range fn.Blocks {
+				if !inLoop(fn, b) {
+					continue
+				}
+				for _, in := range b.Instrs {
+					st, ok := in.(*ssa.Store)
+					if !ok || st.Val.Type().String() != "*math/big.Int" {
+						continue
+					}
+					if _, isField := st.Addr.(*ssa.FieldAddr); !isField {
+						if _, isIdx := st.Addr.(*ssa.IndexAddr); !isIdx {
+							continue
+						}
+					}
+					nSites++
+					// trace the pointer to its allocation through receiver-returning big.Int methods
+					v := st.Val
+					origin := ""
+					var at *ssa.BasicBlock
+					for i := 0; i < 8 && v != nil; i++ {
+						switch x := v.(type) {
+						case *ssa.Call:
+							name := CalleeName(x.Common())
+							switch {
+							case name == "math/big.NewInt":
+								origin, at, v = "big.NewInt", x.Block(), nil
+							case strings.HasPrefix(name, "(*math/big.Int)."):
+								v = x.Call.Args[0]
+							default:
+								origin, at, v = "call "+short(name), x.Block(), nil
+							}
+						case *ssa.Alloc:
+							origin, at, v = "new(big.Int)", x.Block(), nil
+						case *ssa.Extract:
+							v = x.Tuple
+						case *ssa.Phi:
+							origin, at, v = "phi", x.Block(), nil
+						default:
+							origin, v = fmt.Sprintf("%T", x), nil
+						}
+					}
+					var h *ssa.BasicBlock
+					for _, hh := range loopHeaders(fn) {
+						if hh.Dominates(b) && (h == nil || h.Dominates(hh)) {
+							h = hh
+						}
+					}
+					fresh := at != nil && h != nil && h.Dominates(at) && inLoop(fn, at) && origin != "phi"
+					r.check(fresh, "ABI-VALUES", FuncName(TopFunc(fn))+" # a *big.Int stored into a collected element is allocated in the same iteration", P.Pos(st.Pos()), "origin: "+origin+fmt.Sprintf(" ; in this iteration: %v", fresh))
+				}
+			}
+		}
+		r.check(nSites >= 1, "ABI-VALUES", "sites where a *big.Int is stored inside a loop of the bridge keeper", "-", fmt.Sprint(nSites))
+	}
+	r.minCount("ABI-VALUES", 2)
 	r.minCount("ABI-TYPES", 9)
 	r.minCount("ABI-ROLES", 6)
 	r.minCount("ABI-CONST", 4)
